@@ -314,34 +314,39 @@ def run_cell(cell, seed):
 
 
 def task_dim_cell(cell, seed):
-    """from_batch_mvn for every task_dim on a 2-batch-dim MVN"""
+    """from_batch_mvn for every task_dim on MVNs with 2 and 3 batch dims (and from_repeated_mvn on batched MVNs)"""
     fails = Fails()
-    g = util.gen(seed, "c11taskdim")
-    m = util.randn(g, 2, 4, 3)
-    C = util.spd(g, 2, 4, 3)
-    b = MVN(m, C)
-    td = cell["task_dim"]
-    feats = {"ctor": "from_batch_mvn", "task_dim": td}
+    bsh, td, n = tuple(cell["bsh"]), cell["task_dim"], 3
+    g = util.gen(seed, f"c11taskdim{bsh}")
+    m = util.randn(g, *bsh, n)
+    C = util.spd(g, *bsh, n)
+    feats = {"ctor": cell["ctor2"], "task_dim": td, "bsh": list(bsh)}
     with fails.guard("from_batch_mvn-task_dim"):
-        d = MT.from_batch_mvn(b, task_dim=td)
-        tdp = td % 2
-        t = m.shape[tdp]
-        other = 1 - tdp
-        if tuple(d.mean.shape) != (m.shape[other], 3, t):
-            fails.add("from_batch_mvn-task_dim", f"mean shape {tuple(d.mean.shape)}")
+        if cell["ctor2"] == "from_repeated_mvn":
+            d = MT.from_repeated_mvn(MVN(m, C), num_tasks=2)
+            t = 2
+            want_mean = m.unsqueeze(-1).expand(*bsh, n, t)
+            Cexp = C.unsqueeze(-3).expand(*bsh, t, n, n)  # [..., a, :, :]
         else:
-            Jd = J_of(d.covariance_matrix, 3, t, d._interleaved)
-            err = merr = 0.0
-            for o in range(m.shape[other]):
-                for a in range(t):
-                    src = (a, o) if tdp == 0 else (o, a)
-                    err = max(err, util.maxerr(Jd[o, :, a, :, a], C[src]))
-                    merr = max(merr, util.maxerr(d.mean[o, :, a], m[src]))
-                    for a2 in range(t):
-                        if a2 != a:
-                            err = max(err, float(Jd[o, :, a, :, a2].abs().max()))
-            if err > 1e-12 or merr > 1e-12:
-                fails.add("from_batch_mvn-task_dim", f"mismatch err={max(err, merr):.3e}")
+            d = MT.from_batch_mvn(MVN(m, C), task_dim=td)
+            tdp = td % len(bsh)
+            t = bsh[tdp]
+            want_mean = m.movedim(tdp, -1)  # rest..., n, t
+            Cexp = C.movedim(tdp, -3)  # rest..., t, n, n
+        if tuple(d.mean.shape) != tuple(want_mean.shape):
+            fails.add("from_batch_mvn-task_dim", f"mean shape {tuple(d.mean.shape)} want {tuple(want_mean.shape)}")
+        else:
+            fails.check_close("from_batch_mvn-task_dim", d.mean, want_mean, 1e-12, 0, "mean")
+            Jd = J_of(d.covariance_matrix, n, t, d._interleaved)
+            Jw = torch.zeros_like(Jd)
+            for a in range(t):
+                Jw[..., :, a, :, a] = Cexp[..., a, :, :]
+            fails.check_close("from_batch_mvn-task_dim", Jd, Jw, 1e-12, 0, "joint covariance")
+            v = util.randn(g, *want_mean.shape)
+            ref = torch.distributions.MultivariateNormal(
+                want_mean.reshape(*want_mean.shape[:-2], n * t), Jw.reshape(*Jw.shape[:-4], n * t, n * t)).log_prob(v.reshape(*v.shape[:-2], n * t))
+            with gpytorch.settings.fast_computations(log_prob=False):
+                fails.check_close("from_batch_mvn-task_dim", d.log_prob(v), ref, 1e-8, 1e-9, "log_prob")
     for f in fails:
         f["features"] = feats
     return {"fails": fails, "sig": "task_dim", "features": feats, "ops": 1}
@@ -377,6 +382,9 @@ def cells(tier, seed):
                 rws = rows if not red or reduced else dim_alphabet(n, tier, True)
                 for row in rws:
                     out.append({"what": "index", "cfg": cfg, "form": form, "row": row, "bidx": bidx, "reduced": red, "tier": tier})
-    for td in (0, 1, -1, -2):
-        out.append({"what": "task_dim", "cfg": {"n": 3, "t": 0, "b": [], "inter": True, "ctor": "from_batch_mvn"}, "task_dim": td})
+    dummy = {"n": 3, "t": 0, "b": [], "inter": True, "ctor": "from_batch_mvn"}
+    for bsh in [(2,), (2, 4), (4, 2), (2, 3, 3), (3, 2, 4), (2, 2, 2, 2)]:
+        for td in range(-len(bsh), len(bsh)):
+            out.append({"what": "task_dim", "cfg": dummy, "task_dim": td, "bsh": list(bsh), "ctor2": "from_batch_mvn"})
+        out.append({"what": "task_dim", "cfg": dummy, "task_dim": 0, "bsh": list(bsh), "ctor2": "from_repeated_mvn"})
     return out
